@@ -124,25 +124,85 @@ theorem takeSnapshot_sameProto (c : Cfg) (s s' : State) (h : takeSnapshot c s = 
       · cases h; constructor <;> rfl
       · cases h
 
+theorem snapshotDue_sameProto (c : Cfg) (s : State) : SameProto s (snapshotDue c s).1 := by
+  unfold snapshotDue
+  split <;> constructor <;> rfl
+
+/-- `_snapshot_due` touches `_main_snapshots` only. -/
+theorem snapshotDue_eq (c : Cfg) (s : State) :
+    (snapshotDue c s).1 = { s with mainSnaps := (snapshotDue c s).1.mainSnaps } := by
+  unfold snapshotDue
+  split <;> rfl
+
+theorem SameProto.trans {a b d : State} (h1 : SameProto a b) (h2 : SameProto b d) : SameProto a d := by
+  constructor
+  · rw [h2.sendIdx, h1.sendIdx]
+  · rw [h2.rcvdIdx, h1.rcvdIdx]
+  · rw [h2.info, h1.info]
+  · rw [h2.status, h1.status]
+  · rw [h2.cyc, h1.cyc]
+  · rw [h2.outstanding, h1.outstanding]
+  · rw [h2.numTasks, h1.numTasks]
+  · rw [h2.samplerPos, h1.samplerPos]
+  · rw [h2.shutdown, h1.shutdown]
+  · rw [h2.bad, h1.bad]
+  · rw [h2.workers, h1.workers]
+  · rw [h2.resQ, h1.resQ]
+  · rw [h2.phase, h1.phase]
+  · rw [h2.obs, h1.obs]
+
 theorem yieldItem_sameProto (c : Cfg) (s : State) (r : Res) (b : Nat) : SameProto s (yieldItem c s r b).1 := by
   unfold yieldItem
   dsimp only
+  have hd := snapshotDue_sameProto c { s with lastW := r.w, wsnaps := applyDelta s.wsnaps r.w r.st }
+  have h0 : SameProto s { s with lastW := r.w, wsnaps := applyDelta s.wsnaps r.w r.st } := by constructor <;> rfl
+  generalize snapshotDue c { s with lastW := r.w, wsnaps := applyDelta s.wsnaps r.w r.st } = d at hd
   split
-  · split
-    · rename_i s' h
-      have := takeSnapshot_sameProto c _ s' h
-      constructor <;> simp [this.sendIdx, this.rcvdIdx, this.info, this.status, this.cyc, this.outstanding,
-        this.numTasks, this.samplerPos, this.shutdown, this.bad, this.workers, this.resQ, this.phase, this.obs]
-    · constructor <;> rfl
   · constructor <;> rfl
+  · split
+    · split
+      · rename_i s' h
+        have := takeSnapshot_sameProto c _ s' h
+        refine (h0.trans hd).trans (this.trans ?_)
+        constructor <;> rfl
+      · refine (h0.trans hd).trans ?_
+        constructor <;> rfl
+    · refine (h0.trans hd).trans ?_
+      constructor <;> rfl
 
 theorem yieldItem_obs (c : Cfg) (s : State) (r : Res) (b : Nat) :
     (yieldItem c s r b).2 = .item b ∨ (yieldItem c s r b).2 = .assertion := by
   unfold yieldItem
   dsimp only
   split
-  · split <;> simp
   · simp
+  · split
+    · split <;> simp
+    · simp
+
+/-! ## the snapshot trigger: what it is for iterable datasets, and the pre-f1014eb form -/
+
+/-- `yieldItem` with the yield-counting trigger `(num_yielded + 1) % interval == 0` (what the code does for
+iterable datasets, and did for map-style ones before repo fix f1014eb). -/
+def yieldItemOld (c : Cfg) (s : State) (r : Res) (b : Nat) : State × Obs :=
+  let s := { s with lastW := r.w, wsnaps := applyDelta s.wsnaps r.w r.st }
+  if c.interval ≠ 0 ∧ (s.numYielded + 1) % c.interval = 0 then
+    match takeSnapshot c s with
+    | some s' => ({ s' with numYielded := s'.numYielded + 1 }, .item b)
+    | none => ({ s with mainSnaps := (popSnaps s.rcvdIdx s.mainSnaps none).2 }, .assertion)
+  else ({ s with numYielded := s.numYielded + 1 }, .item b)
+
+theorem yieldItem_iter (c : Cfg) (s : State) (r : Res) (b : Nat) (hit : c.iterable = true) :
+    yieldItem c s r b = yieldItemOld c s r b := by
+  unfold yieldItem yieldItemOld snapshotDue
+  simp only [hit, if_true]
+  by_cases h0 : c.interval = 0
+  · simp [h0]
+  · by_cases hd : (s.numYielded + 1) % c.interval = 0
+    · simp [h0, hd]
+      generalize takeSnapshot c _ = t
+      cases t <;> rfl
+    · simp [h0, hd]
 
 end TDV.MP
 
